@@ -1,18 +1,26 @@
 use crate::engine::{Ctx, DynEngine};
 
-pub mod c01;
-
-pub fn run(prop: &str, ctx: &Ctx) -> bool {
-    match prop {
-        "C01" => c01::run(ctx),
-        _ => return false,
-    }
-    true
+macro_rules! props {
+    ($( $id:literal => $m:ident ),* $(,)?) => {
+        $( pub mod $m; )*
+        pub fn run(prop: &str, ctx: &Ctx) -> bool {
+            match prop {
+                $( $id => $m::run(ctx), )*
+                _ => return false,
+            }
+            true
+        }
+        pub fn engines(prop: &str) -> Vec<Box<dyn DynEngine>> {
+            match prop {
+                $( $id => $m::engines(), )*
+                _ => vec![],
+            }
+        }
+    };
 }
 
-pub fn engines(prop: &str) -> Vec<Box<dyn DynEngine>> {
-    match prop {
-        "C01" => c01::engines(),
-        _ => vec![],
-    }
+props! {
+    "C01" => c01,
+    "C02" => c02,
+    "C03" => c03,
 }
